@@ -17,20 +17,18 @@ from core.wire import atom, line, parse_reply, Atom
 
 ID = "C14"
 LEAN_TARGETS = ["TornadoModel.C14.Props"]
-THEOREMS_PLANNED = [
+THEOREMS = [
     "TornadoModel.C14.mask_involution",
     "TornadoModel.C14.frame_roundtrip",
     "TornadoModel.C14.write_frame_roundtrip",
-    "TornadoModel.C14.frames_roundtrip",
     "TornadoModel.C14.stepBytes_encode",
     "TornadoModel.C14.runBytes_encode",
-    "TornadoModel.C14.runBytes_fuel",
+    "TornadoModel.C14.runBytes_fuel_indep",
     "TornadoModel.C14.control_frames_transparent",
     "TornadoModel.C14.message_intact",
     "TornadoModel.C14.messages_intact",
     "TornadoModel.C14.messages_intact_bytes",
 ]
-THEOREMS = []
 TRUSTED = [
     "zlib: the (compress, decompress) pair is a parameter with the contract Spec.Codec (decompress after compress "
     "is the identity for matched histories); the tie runs the real zlib objects and feeds their recorded calls to the model",
